@@ -7,15 +7,27 @@ fn desc(arg: &str, what: &str) -> String {
 
 const WORDS: &[&str] = &["", "a", "ab", "猫", "火星猫", "a,b", "\"q\"", "a b", "line\nbreak", "👨‍👩‍👧"];
 
+fn weight_patterns(n: usize) -> Vec<Vec<i32>> {
+    vec![
+        vec![1; n],
+        vec![0; n],                                                    // all zero
+        (0..n).map(|k| k as i32 - 3).collect(),                        // negative, zero and positive entries
+        (0..n).map(|k| if k + 2 >= n { 0 } else { 7 }).collect(),      // trailing zeros
+        (0..n).map(|k| if k < 2 { 0 } else { -9 }).collect(),          // leading zeros
+        (0..n).map(|k| if k % 2 == 0 { i32::MAX } else { i32::MIN }).collect(),
+    ]
+}
 fn check_record(word: &str, n: usize) -> Option<String> {
-    let r = WordWeightRecord::new(word.to_string(), vec![1; n], "c".to_string());
-    let want = n == word.chars().count() + 1;
-    if r.is_ok() != want {
-        return Some(desc(&format!("rec:{}:{}", n, word), "record accepted/rejected against the length rule"));
-    }
-    if let Ok(rec) = r {
-        if rec.get_word() != word || rec.get_weights().len() != n || rec.get_comment() != "c" {
-            return Some(desc(&format!("rec:{}:{}", n, word), "record does not store its arguments unchanged"));
+    for (pi, weights) in weight_patterns(n).into_iter().enumerate() {
+        let r = WordWeightRecord::new(word.to_string(), weights.clone(), "c, \"d\" ".to_string());
+        let want = n == word.chars().count() + 1;
+        if r.is_ok() != want {
+            return Some(desc(&format!("rec:{}:{}", n, word), "record accepted/rejected against the length rule"));
+        }
+        if let Ok(rec) = r {
+            if rec.get_word() != word || rec.get_weights() != &weights[..] || rec.get_comment() != "c, \"d\" " {
+                return Some(desc(&format!("rec:{}:{}", n, word), &format!("record does not store its arguments unchanged (weight pattern {pi}: given {:?}, get_weights {:?})", weights, rec.get_weights())));
+            }
         }
     }
     None
